@@ -154,7 +154,7 @@ MACROS = r"\b(panic|unreachable|unimplemented|todo|assert|assert_eq|assert_ne|de
 OWN_UNWRAP = r"\.\s*(unwrap_(?!or\b|or_else\b|or_default\b|unchecked\b)\w+)\s*\("
 CALLS = r"\.\s*(swap_remove|split_at|split_at_mut|split_off|drain)\s*\("
 # Vec::remove(i) / Vec::insert(i, x): recognised by an index-like first argument (HashMap::insert/remove never panic)
-VEC_REMOVE = r"\.\s*(?:remove\s*\(\s*(?:\d+|i|j|n|p|pos|index|idx|line)\s*\)|insert\s*\(\s*(?:\d+|i|j|n|p|pos|index|idx|line)\s*,)"
+VEC_REMOVE = r"\.\s*(?:remove\s*\(\s*(?:\d+|i|j|n|p|pos|index|idx|line)\s*\)|insert\s*\(\s*(?:\d+|(?:\w+\.)*(?:i|j|n|p|pos|position|index|idx|line))\s*,)"
 
 
 def sites_of(path, rel):
@@ -271,7 +271,16 @@ def render_md(sites):
     for c, d in CLASSES.items():
         n = sum(s["n"] for s in sites if s.get("class") == c)
         out.append(f"* **{c}** ({n}) — {d}")
-    out.append("")
+    out += ["", "Panics that no syntactic scan can list (named in the evidence as outside the model):", "",
+            "* **stack exhaustion** — `typedexpr::walk_expr`/`walk_stmt`, `ObjectTree::populate_node_rec`, the uigen object walk and",
+            "  tree-sitter's own recursive routines recurse on the nesting depth of the input: finding **F11** (abort with SIGABRT,",
+            "  not an unwinding panic); the c07 stream bounds the depth in-process and tests deep inputs through the CLI binary only.",
+            "* **arithmetic overflow** — `overflow-checks` is off in the release profile; the harness enables it for the library, so",
+            "  `i + 1`, `*i - 1`, `start + count`, `column as usize` style arithmetic is exercised with checks on.  Constant folding",
+            "  itself uses `checked_*` operations (tir/ceval.rs).",
+            "* **allocation failure / capacity overflow** — `Vec::with_capacity(depth + 1)`, `String::with_capacity(node.byte_range().len())`,",
+            "  `array.resize_with(index + 1, ..)` (index ≤ 65535 after the layout range check) are bounded by the input size.",
+            "* **third-party code** — tree-sitter, quick-xml, codespan-reporting, serde: exercised, not reviewed.", ""]
     cur = None
     for s in sites:
         if s["file"] != cur:
